@@ -31,7 +31,14 @@ type overlay struct {
 func main() {
 	out := flag.String("out", "", "output directory")
 	basePath := flag.String("base", "", "overlay to build upon (mutation self-tests)")
+	mapping := flag.String("map", "os="+shim+",io/ioutil="+shim+"/ioutilshim", "comma separated <import path>=<shim import path>")
 	flag.Parse()
+	shims := map[string]string{}
+	for _, kv := range strings.Split(*mapping, ",") {
+		if i := strings.IndexByte(kv, '='); i > 0 {
+			shims[kv[:i]] = kv[i+1:]
+		}
+	}
 	if *out == "" || flag.NArg() == 0 {
 		fmt.Fprintln(os.Stderr, "usage: osrewrite -out dir [-base overlay.json] pkgdir...")
 		os.Exit(2)
@@ -84,17 +91,10 @@ func main() {
 			changed := false
 			for _, imp := range af.Imports {
 				p, _ := strconv.Unquote(imp.Path.Value)
-				switch p {
-				case "os":
-					imp.Path.Value = strconv.Quote(shim)
+				if to, ok := shims[p]; ok {
+					imp.Path.Value = strconv.Quote(to)
 					if imp.Name == nil {
-						imp.Name = ast.NewIdent("os")
-					}
-					changed = true
-				case "io/ioutil":
-					imp.Path.Value = strconv.Quote(shim + "/ioutilshim")
-					if imp.Name == nil {
-						imp.Name = ast.NewIdent("ioutil")
+						imp.Name = ast.NewIdent(p[strings.LastIndex(p, "/")+1:])
 					}
 					changed = true
 				}
